@@ -4,6 +4,7 @@ import (
 	"fmt"
 	"go/ast"
 	"go/token"
+	"path/filepath"
 	"strings"
 )
 
@@ -220,7 +221,7 @@ func caseLabels(c *ctx, fd *ast.FuncDecl) []string {
 func nodeSrc(c *ctx, n ast.Node) string {
 	p := c.fset.Position(n.Pos())
 	for rel, b := range c.srcs {
-		if strings.HasSuffix(p.Filename, rel) {
+		if strings.HasSuffix(p.Filename, rel) || filepath.Clean(filepath.Join(c.repo, rel)) == p.Filename {
 			return string(b[p.Offset:c.fset.Position(n.End()).Offset])
 		}
 	}
